@@ -7,6 +7,7 @@ import (
 	"math/rand/v2"
 
 	"github.com/semafind/semadb/models"
+	sim "github.com/semafind/semadb/zzsimrt"
 	"github.com/vmihailenco/msgpack/v5"
 )
 
@@ -29,6 +30,16 @@ var AllIndexKinds = SchemaOpts{Strings: true, Ints: true, Floats: true, Arrays: 
 var metrics = []string{models.DistanceEuclidean, models.DistanceCosine, models.DistanceDot, models.DistanceHamming, models.DistanceJaccard, models.DistanceHaversine}
 
 func pick[T any](r *rand.Rand, xs []T) T { return xs[r.IntN(len(xs))] }
+
+// addStalls draws the "stalled task" fault of a run (a thread that loses the CPU for
+// a long time at an arbitrary point): per scheduling decision the chosen task is, with
+// this probability, not run but kept out for up to StallLen steps while everybody else
+// goes on. Drawn last in Generate, so the workload of a run index does not depend on it.
+func addStalls(r *rand.Rand, cfg *sim.Config) {
+	cfg.StallProb = pick(r, []float64{0, 0, 0.005, 0.02})
+	cfg.StallLen = pick(r, []int{30, 150, 600})
+	cfg.SpawnStall = pick(r, []float64{0, 0, 0.02, 0.1})
+}
 
 // productEligible: product.go supports euclidean / cosine / dot and needs a
 // vector length divisible by the number of sub-vectors (>= 2).
